@@ -13,6 +13,7 @@ from typing import (
     List,
     Optional,
     Sequence,
+    Set,
     Tuple,
     Type,
     Union,
@@ -952,7 +953,14 @@ class PDFDocument:
         # may raise KeyError
         d0 = dict_value(names[cat])
 
-        def lookup(d: Dict[str, Any]) -> Any:
+        visited: Set[int] = set()
+
+        def lookup(d: Dict[str, Any], key_of_node: Optional[int] = None) -> Any:
+            node = key_of_node or id(d)
+            if node in visited:
+                # a node that is its own descendant: nothing new below it
+                return None
+            visited.add(node)
             if "Limits" in d:
                 (k1, k2) = list_value(d["Limits"])
                 if key < k1 or k2 < key:
@@ -965,7 +973,7 @@ class PDFDocument:
                 return names[key]
             if "Kids" in d:
                 for c in list_value(d["Kids"]):
-                    v = lookup(dict_value(c))
+                    v = lookup(dict_value(c), getattr(c, "objid", None))
                     if v:
                         return v
             raise PDFKeyError((cat, key))
